@@ -82,6 +82,17 @@ def build_cases(tb, rnd, tier):
                 c = rating.mk_case(cid[0], role=role, kex=kx, key=['ssh-ed25519'], enc=enc, mac=mac)
                 cases.append(c)
                 meta[c['id']] = (cat, n, 'unknown-terrapin-shape')
+    # the *other* role's strict-kex marker is just another name in the list: it changes nothing about how the Terrapin-prone names are rated
+    for role in ('server', 'client'):
+        other = rating_marker('client' if role == 'server' else 'server')
+        for kx in (['curve25519-sha256', other], [other, 'curve25519-sha256'], ['curve25519-sha256', other, rating_marker(role)]):
+            for cat, n, enc, mac in (('enc', 'chacha20-poly1305@openssh.com', ['chacha20-poly1305@openssh.com', 'aes256-ctr'], ['hmac-sha2-256']),
+                                     ('enc', 'aes128-cbc', ['aes128-cbc', 'aes256-ctr'], ['hmac-sha2-256-etm@openssh.com', 'hmac-sha2-256']),
+                                     ('mac', 'hmac-sha2-512-etm@openssh.com', ['aes256-cbc', 'chacha20-poly1305@openssh.com'], ['hmac-sha2-512-etm@openssh.com'])):
+                cid[0] += 1
+                c = rating.mk_case(cid[0], role=role, kex=kx, key=['ssh-ed25519'], enc=enc, mac=mac)
+                cases.append(c)
+                meta[c['id']] = (cat, n, 'other-roles-marker')
     # the same spelling in two categories: each occurrence is rated by its own category's table (known in one, unknown in the other)
     cross = [dict(enc=['none', 'aes128-ctr'], mac=['none', 'hmac-sha2-256']),
              dict(enc=['aes128-ctr', 'none'], mac=['hmac-sha2-256', 'none', 'aes128-ctr']),
